@@ -474,3 +474,104 @@ def c01_op_after_logout(seed=1):
             h.op("fini")
             texts.append(h.text())
     return texts
+
+
+# ---------------------------------------------------------------------------------------------------------
+# C08: CKA_TRUSTED can be set true only by the SO — login state x class x way of setting it
+# ---------------------------------------------------------------------------------------------------------
+def c08_trusted_matrix(seed=1):
+    """Certificate, RSA public key, AES and generic secret key (the classes that have CKA_TRUSTED), as session and as token objects, public: C_CreateObject /
+    C_GenerateKey / C_CopyObject / C_SetAttributeValue with CKA_TRUSTED = true (and = false) while NOBODY, the USER, the SO is logged in; the attribute is read back."""
+    from .gen import RSA1024
+    rng = random.Random(seed)
+    h = OpsGen(rng)
+    h.prologue(1)
+    t = h.toks[0]
+    k = h.open(t, True)
+    U = ul
+    R = RSA1024
+    bodies = [("cert", f"0={U(1)} 80={U(0)} 101={hx('subject')} 11={hx('certvalue')}"), ("rsapub", f"0={U(2)} 100={U(0)} 120={R['n']} 122=010001"),
+              ("aes", f"0={U(4)} 100={U(0x1f)} 11={'3c' * 16}"), ("generic", f"0={U(4)} 100={U(0x10)} 11={'4d' * 20}")]
+    for who in ("nobody", "user", "so", "nobody-after-logout"):
+        if who == "user": h.op(f"login @{k} 1 {hx(t.user)}")
+        elif who == "so": h.op(f"login @{k} 0 {hx(t.so)}")
+        for name, body in bodies:
+            for tok in ("00", "01"):
+                for tr in ("01", "00"):
+                    o = h.op(f"create @{k} {body} 1={tok} 2=00 3={hx(h.new_label())} 86={tr}"); h.minted += 1
+                    h.op(f"getattr @{k} @{o} 86:1")
+                    if tr == "00":
+                        h.op(f"setattr @{k} @{o} 86=01"); h.op(f"getattr @{k} @{o} 86:1")
+                        c = h.op(f"copy @{k} @{o} 3={hx(h.new_label())} 86=01"); h.minted += 1
+                        h.op(f"getattr @{k} @{c} 86:1"); h.op(f"destroy @{k} @{c}")
+                    h.op(f"destroy @{k} @{o}")
+        for tok in ("00", "01"):
+            g = h.op(f"genkey @{k} 1080 161={U(16)} 1={tok} 2=00 3={hx(h.new_label())} 86=01"); h.minted += 1
+            h.op(f"getattr @{k} @{g} 86:1"); h.op(f"destroy @{k} @{g}")
+        if who in ("user", "so"): h.op(f"logout @{k}")
+    h.op("fini")
+    return h.text()
+
+
+# ---------------------------------------------------------------------------------------------------------
+# C13: derivation into DES / DES2 / DES3 keys: the value is the mechanism's secret with odd parity in every byte
+# ---------------------------------------------------------------------------------------------------------
+def c13_derive_des_matrix(seed=1):
+    """Every derivation mechanism that yields a symmetric secret (concatenation with data / with a key in both orders, AES_ECB / AES_CBC_ENCRYPT_DATA, ECDH, DH) into
+    CKK_DES2 / CKK_DES3 / generic / AES keys of exactly fitting lengths, from base values whose bytes have EVEN parity; the derived value and check value are read
+    back and recomputed by the Lean reference (`shapeSecret`: cut to length, parity for the DES types)."""
+    from .gen import OAKLEY2, P256_G, p256_mul
+    rng = random.Random(seed)
+    h = OpsGen(rng)
+    h.prologue(1)
+    t = h.toks[0]
+    k = h.open(t, True); h.login(k, t, 'user')
+    U = ul
+    even = lambda n: "".join(rng.choice(["00", "03", "05", "06", "0a", "ff", "c3", "a5", "3c", "99"]) for _ in range(n))
+    bases = {n: h.op(f"create @{k} 0={U(4)} 100={U(0x10)} 3={hx(h.new_label())} 11={even(n)} 162=01 103=00 10c=01") for n in (4, 8, 12, 16, 20, 24)}
+    h.minted += len(bases)
+    aes = h.op(f"create @{k} 0={U(4)} 100={U(0x1f)} 3={hx(h.new_label())} 11={even(16)} 162=01 103=00 10c=01 104=01"); h.minted += 1
+    def after(u):
+        h.op(f"getattr @{k} @{u} 0:8 100:8 11:600 161:8"); h.op(f"kcv @{k} @{u}"); h.op(f"destroy @{k} @{u}")
+    for kt, total in ((0x14, 16), (0x15, 24), (0x10, 16), (0x1f, 16)):
+        vlen = f" 161={U(total)}" if kt in (0x10, 0x1f) else ""
+        for n, base in bases.items():
+            if n < total:
+                for mech in ("362", "363"):
+                    u = h.op(f"derive @{k} {mech}:str({even(total - n)}) @{base} 0={U(4)} 100={U(kt)} 3={hx(h.new_label())} 162=01 103=00{vlen}"); h.minted += 1; after(u)
+            for m, other in bases.items():
+                if n + m == total:
+                    u = h.op(f"derive @{k} 360:obj(@{other}) @{base} 0={U(4)} 100={U(kt)} 3={hx(h.new_label())} 162=01 103=00{vlen}"); h.minted += 1; after(u)
+        for mech in (f"1104:str({even(32)})", f"1105:cbcd({'00' * 16},{even(32)})"):
+            u = h.op(f"derive @{k} {mech} @{aes} 0={U(4)} 100={U(kt)} 3={hx(h.new_label())} 162=01 103=00{vlen}"); h.minted += 1; after(u)
+    h.op("fini")
+    return h.text()
+
+
+# ---------------------------------------------------------------------------------------------------------
+# C04 (two processes): a PIN changed by one process stays changed whatever another, older process does afterwards
+# ---------------------------------------------------------------------------------------------------------
+def c04_two_process_pins(seed=1):
+    """Process 0 has the token open.  Process 1 changes the user PIN (C_SetPIN) / the SO PIN / re-initialises the user PIN and ends.  Process 0 then makes the calls
+    that write token.object (a rejected C_Login, an accepted one, C_Logout).  A FRESH process 2 is the judge: the most recently set PINs log in, the replaced ones do
+    not.  Only process 2's logins are judged (`nop expect-login`): what the long-running process 0 itself accepts is not part of this suite."""
+    lines, cnt = [], {}
+    def op(i, text):
+        cnt[i] = cnt.get(i, 0) + 1; lines.append(f"P{i} {text}"); return cnt[i]
+    lab, so, user = hx("tokA"), hx("so0pin0"), hx("user0pin")
+    nu, ns = hx("new-user-pin"), hx("new-so-pin")
+    op(0, "init"); op(0, "slots"); op(0, f"inittoken free {so} {lab}"); op(0, "slots")
+    k = op(0, f"open t:{lab} 6"); op(0, f"login @{k} 0 {so}"); op(0, f"initpin @{k} {user}"); op(0, f"logout @{k}")
+    # process 1: changes both PINs and ends
+    op(1, "init"); op(1, "slots"); s1 = op(1, f"open t:{lab} 6")
+    op(1, f"login @{s1} 1 {user}"); op(1, f"setpin @{s1} {user} {nu}"); op(1, f"logout @{s1}")
+    op(1, f"login @{s1} 0 {so}"); op(1, f"setpin @{s1} {so} {ns}"); op(1, f"logout @{s1}"); op(1, "fini")
+    # process 0 (token loaded before the change): calls that write the token flags
+    op(0, f"login @{k} 1 {hx('wrong-pin')}"); op(0, f"login @{k} 1 {nu}"); op(0, f"logout @{k}")
+    op(0, f"login @{k} 0 {hx('wrong-pin')}"); op(0, f"login @{k} 0 {ns}"); op(0, f"logout @{k}"); op(0, "fini")
+    # process 2: the judge
+    op(2, "init"); op(2, "slots"); s2 = op(2, f"open t:{lab} 6")
+    for utype, pin, want in ((1, nu, 0), (1, user, 160), (0, ns, 0), (0, so, 160)):
+        op(2, f"nop expect-login {want}"); op(2, f"login @{s2} {utype} {pin}"); op(2, f"logout @{s2}")
+    op(2, "fini")
+    return "\n".join(lines) + "\n"
